@@ -282,4 +282,57 @@ theorem cellAt_applySlateOps (sl : Slate V) (ops : List SlateOp) (v k : Nat) (hw
 
 end
 
+
+section
+variable {V : Type}
+
+/-- **`to_databox` of any dataslate, cell by cell**: for distinct names the `k`-th name is bound to a series on the dataslate's
+periods whose cell (period `i`, variant `v`) is the dataslate's cell at that period -/
+theorem toDatabox_cellAt (sl : Slate V) (out : List (String × Ser V)) (hout : toDatabox sl false = .ok out)
+    (hnd : sl.names.Nodup) (n : String) (hn : n ∈ sl.names) :
+    ∃ k s, sl.names[k]? = some n ∧ lookup out n = some s ∧ s.freq = sl.freq ∧ s.start = sl.start
+      ∧ s.nv = sl.variants.length ∧ s.rows.length = sl.len
+      ∧ ∀ v, v < sl.variants.length → ∀ i, i < sl.len →
+          (s.rows[i]?.bind (·[v]?)) = some (sl.cellAt v k (sl.start + (i : Int))) := by
+  unfold toDatabox at hout
+  by_cases hempty : sl.variants.isEmpty = true
+  · simp [hempty, throw, throwThe, MonadExceptOf.throw] at hout
+  · simp only [hempty, Bool.false_eq_true, if_false, pure, Except.pure, Except.ok.injEq] at hout
+    subst hout
+    have hkeys : (keys (((List.range sl.names.length).zip sl.names).map (fun (qn : Nat × String) =>
+        (qn.2, (⟨sl.freq, sl.start, sl.variants.length, rowsOf sl.len (sl.variants.map (fun v => (v[qn.1]?).getD [])), ""⟩ : Ser V))))).Nodup := by
+      have : keys (((List.range sl.names.length).zip sl.names).map (fun (qn : Nat × String) =>
+        (qn.2, (⟨sl.freq, sl.start, sl.variants.length, rowsOf sl.len (sl.variants.map (fun v => (v[qn.1]?).getD [])), ""⟩ : Ser V)))) = sl.names := by
+        simp only [keys, List.map_map]
+        exact List.map_snd_zip (l₁ := List.range sl.names.length) (l₂ := sl.names) (by simp)
+      rw [this]; exact hnd
+    rw [IrisVerif.Grid.dictOfList_nodup _ hkeys, List.range_eq_range']
+    obtain ⟨k, hk, hl⟩ := lookup_zip_range sl.names 0
+      (fun q => (⟨sl.freq, sl.start, sl.variants.length, rowsOf sl.len (sl.variants.map (fun v => (v[q]?).getD [])), ""⟩ : Ser V)) n hn
+    refine ⟨k, _, hk, hl, rfl, rfl, rfl, by simp [rowsOf], ?_⟩
+    intro v hv i hi
+    have hwin : sl.start ≤ sl.start + (i : Int) ∧ sl.start + (i : Int) < sl.start + (sl.len : Int) := by omega
+    have hidx : (sl.start + (i : Int) - sl.start).toNat = i := by omega
+    simp only [rowsOf, List.getElem?_map, List.getElem?_range hi, Option.map_some, Option.bind_some, Slate.cellAt, hwin,
+      and_self, if_true, hidx, Slate.record, Nat.zero_add]
+    have hv' : sl.variants[v]? = some sl.variants[v] := List.getElem?_eq_getElem hv
+    simp [hv']
+
+/-- **any sequence of period operations followed by `to_databox`**: the output cell of period `i` (counted from the new start),
+variant `v`, is the converted value of that absolute period if no operation of the sequence removed it, NaN otherwise -/
+theorem slate_ops_then_toDatabox (sl : Slate V) (ops : List SlateOp) (out : List (String × Ser V))
+    (hout : toDatabox (applySlateOps sl ops) false = .ok out) (hnd : (applySlateOps sl ops).names.Nodup)
+    (n : String) (hn : n ∈ (applySlateOps sl ops).names) (hrec : ∀ v k, v < (applySlateOps sl ops).variants.length →
+      (applySlateOps sl ops).names[k]? = some n → sl.hasRecord v k) :
+    ∃ k s, (applySlateOps sl ops).names[k]? = some n ∧ lookup out n = some s ∧ s.start = (applySlateOps sl ops).start
+      ∧ ∀ v, v < (applySlateOps sl ops).variants.length → ∀ i, i < (applySlateOps sl ops).len →
+          (s.rows[i]?.bind (·[v]?)) = some (if aliveAfter sl ops ((applySlateOps sl ops).start + (i : Int))
+            then sl.cellAt v k ((applySlateOps sl ops).start + (i : Int)) else none) := by
+  obtain ⟨k, s, hk, hl, _, hs, _, _, hc⟩ := toDatabox_cellAt _ out hout hnd n hn
+  refine ⟨k, s, hk, hl, hs, ?_⟩
+  intro v hv i hi
+  rw [hc v hv i hi, cellAt_applySlateOps sl ops v k (hrec v k hv hk)]
+
+end
+
 end IrisVerif.Dataslate
